@@ -91,11 +91,17 @@ def run_property(prop, tier, seed, args):
             ins(eng)
     selected = [u for u in units if prop in u.props and not (u.opts.get("tier") == "thorough" and tier != "thorough")]
     if args.units:
-        want = set(args.units.split(","))
+        want = set(args.units.split(";" if ";" in args.units or "[" in args.units else ","))
         selected = [u for u in selected if u.id in want]
     pinfo = {}
     for m in mods:
-        pinfo.update(getattr(m, "PROPERTY_INFO", {}))
+        for pk, pv in getattr(m, "PROPERTY_INFO", {}).items():
+            cur = pinfo.setdefault(pk, {})
+            for kk, vv in pv.items():
+                if isinstance(vv, list):
+                    cur[kk] = list(cur.get(kk, [])) + [x for x in vv if x not in cur.get(kk, [])]
+                else:
+                    cur[kk] = vv
     info = pinfo.get(prop, {})
     timeout_ms = 20000 if tier == "quick" else 120000
     undecided_units = []
@@ -247,7 +253,7 @@ def run_property(prop, tier, seed, args):
         in_base = baseline is None or o.name in baseline
         if rp.get("found"):
             violations.append((o, path, True))
-        elif o.status == "sat" and in_base:
+        elif o.status == "sat":
             # counter-model of the complete VC; no concrete input reproduced it
             violations.append((o, path, False))
         else:
